@@ -310,6 +310,18 @@ func (svc *service) writeMessage(msg message.Message) (int, error) {
 	return m, nil
 }
 
+// outLen returns the number of bytes waiting in the outgoing buffer.
+func (svc *service) outLen() int {
+	svc.wmu.Lock()
+	defer svc.wmu.Unlock()
+
+	if svc.out == nil {
+		return 0
+	}
+
+	return svc.out.Len()
+}
+
 func isEOF(err error) bool {
 	if err == nil {
 		return false
